@@ -750,7 +750,7 @@ class Exec:
             return self.eval_place(st, frame, op.place)
         if op.kind == "const":
             return self.eval_const(st, op.const, ty_hint)
-        if op.kind == "raw" and re.match(r"^[A-Za-z_<][A-Za-z0-9_:<>, '&]*$", op.const):
+        if op.kind == "raw" and re.match(r"^[A-Za-z_<][A-Za-z0-9_:<>, '&()\[\];*]*$", op.const) and "(" not in op.const.split("<", 1)[0]:
             return self._fn_value(op.const)  # a function item passed by name (e.g. `ok_or_else(.., err_pop)`)
         raise MirUnsupported("operand %r" % (op,))
 
